@@ -1223,6 +1223,11 @@ def _append_point(points, name, tree, buffer_items):
       Will have buffer appended with points data
     """
 
+    # return early from empty clouds like `_append_mesh` does for empty meshes
+    if len(points.vertices) == 0:
+        log.debug("skipping empty point cloud!")
+        return
+
     # convert the points to the unnamed args for
     # a pyglet vertex list
     vxlist = rendering.points_to_vertexlist(points=points.vertices, colors=points.colors)
